@@ -20,7 +20,7 @@ RULE = (
     "(sequence of (node, callback) over all loop steps)."
 )
 SHRINK_LISTS = ("jobs",)
-ASSUMPTIONS = ["graceful_shutdown_time exceeds every actor duration (otherwise C03's cancel path decides the outcome)"]
+ASSUMPTIONS = []
 
 
 def gen(rng, broker, tier):
@@ -54,7 +54,7 @@ def gen(rng, broker, tier):
         })
     return {
         "mode": "worker", "M": M, "tasks_limit": rng.choice([1, 2, 3, M, M + 1, 50, 1000]),
-        "nq": nq, "jobs": jobs, "graceful_s": 60.0,
+        "nq": nq, "jobs": jobs, "graceful_s": rng.choice([60.0, 60.0, 0.2, 0.02]),
         "knobs": {"step_cost": rng.choice([0, 0, 1, "rand"])},
     }
 
